@@ -36,8 +36,16 @@ class Replay:
     detail: dict = None
 
 
-def cbmc_command(h, slot="r"):
+def cbmc_command(h):
     """ask Kani (verbose) for the cbmc command line of this harness"""
+    sl = runner.Slot()
+    try:
+        return _cbmc_command(h, sl.id)
+    finally:
+        sl.release()
+
+
+def _cbmc_command(h, slot):
     tdir = os.path.join(runner.BUILD, f"kt{slot}")
     cmd = ["cargo", "kani", "--target-dir", tdir, "--exact", "--harness", h.name, "--verbose"] + list(h.flags)
     if h.stubs:
